@@ -16,6 +16,7 @@ import (
 	"sync/atomic"
 
 	jdoc "github.com/jsightapi/jsight-schema-go-library/formats/json"
+	"github.com/jsightapi/jsight-schema-go-library/notations/jschema"
 )
 
 type graph struct {
@@ -165,6 +166,18 @@ func checkDoc(b []byte, trailing bool) Outcome {
 	})
 }
 
+// checkSchemaLex runs the schema scanner alone (hook VerifScan) over b.
+func checkSchemaLex(b []byte) Outcome {
+	_, _, f := jschema.VerifScan(b, false)
+	if f == nil {
+		return Outcome{OK: true, Pos: -1}
+	}
+	if e, ok := f.(error); ok {
+		return outcomeOf(e)
+	}
+	return Outcome{Kind: "panic", Code: -2, Pos: -1, Panic: fmt.Sprint(f)}
+}
+
 func init() {
 	register("c05graph", func(args []string) int {
 		fs := flag.NewFlagSet("c05graph", flag.ExitOnError)
@@ -174,6 +187,8 @@ func init() {
 		enumLen := fs.Int("enum", 0, "also enumerate all strings up to this length over -enumalpha")
 		enumAlpha := fs.String("enumalpha", "", "bytes of the enumeration alphabet")
 		positions := fs.Bool("positions", false, "also compare error positions (C17)")
+		sut := fs.String("sut", "json", "json: Document.Check; schema: the schema scanner (graph exported from SchemaRef.tla)")
+		notes := fs.String("notes", "", "schema: ndjson of verdict differences (reported, never violations)")
 		fs.Parse(args)
 		var g graph
 		data, err := os.ReadFile(*gpath)
@@ -187,10 +202,16 @@ func init() {
 		W := g.wset()
 		w := newNDWriter(*out)
 		defer w.Close()
-		var tests, distinctStrings, mism, unspec int64
+		var tests, distinctStrings, mism, unspec, lenient, strict, located int64
+		var nw *ndWriter
+		if *notes != "" {
+			nw = newNDWriter(*notes)
+			defer nw.Close()
+		}
 		var transitions int64
 		var mu sync.Mutex
 		samples := []string{}
+		noteCount := map[int]int{}
 		judge := func(b []byte) {
 			atomic.AddInt64(&tests, 1)
 			t := g.run(g.Init, b)
@@ -202,18 +223,44 @@ func init() {
 				atomic.AddInt64(&unspec, 1)
 				return
 			}
-			got := checkDoc(b, *trailing)
+			var got Outcome
+			if *sut == "schema" {
+				got = checkSchemaLex(b)
+			} else {
+				got = checkDoc(b, *trailing)
+			}
 			what := ""
 			wantPos := -1
 			if got.Kind == "panic" || got.Kind == "foreign" {
 				what = "panic"
 			} else if got.OK != (want == "accept") {
 				what = "verdict"
+				if *sut == "schema" {
+					// no listed property fixes the exact language of the schema scanner: differences are reported, positions are judged
+					what = ""
+					n := atomic.AddInt64(&lenient, 0)
+					if got.OK {
+						n = atomic.AddInt64(&lenient, 1)
+					} else {
+						n = atomic.AddInt64(&strict, 1)
+					}
+					_ = n
+					if nw != nil {
+						mu.Lock()
+						noteCount[t]++
+						k := noteCount[t]
+						mu.Unlock()
+						if k <= 2 {
+							nw.Write(c05Mismatch{Bytes: bytesToInts(b), Want: want + " in " + g.Names[t], WantPos: g.firstDead(b), Got: got, What: "verdict-note"})
+						}
+					}
+				}
 			} else if *positions && !got.OK && len(b) > 0 {
 				wantPos = g.firstDead(b)
 				if wantPos < 0 {
 					wantPos = len(b) - 1
 				}
+				atomic.AddInt64(&located, 1)
 				if got.Pos != wantPos {
 					what = "position"
 				}
@@ -365,7 +412,7 @@ func init() {
 		_ = distinctStrings
 		sum := map[string]interface{}{
 			"states": g.N, "transitions": transitions, "wset": len(W), "byte_classes": len(reps), "tests": tests, "enumerated": enumerated,
-			"unspecified": unspec, "mismatches": mism, "samples": samples,
+			"unspecified": unspec, "mismatches": mism, "samples": samples, "lenient": lenient, "strict": strict, "located": located,
 		}
 		b, _ := json.Marshal(sum)
 		fmt.Fprintln(os.Stderr, "@@SUMMARY "+string(b))
